@@ -182,7 +182,7 @@ def pack (O : Oracle) (cx : Cx) (fx : Fx) : Ty → V → R V
       pure (.coll .list r)
   | .tunp pre mid post, v => do
       let a ← packIdx O cx fx pre v 0
-      let sl ← pySlice v pre.length (if post.isEmpty then none else some (-(post.length : Int)))
+      let sl ← pySliceO O v pre.length (if post.isEmpty then none else some (-(post.length : Int)))
       let b ← sl.mapM (pack O cx fx mid)
       let c ← packIdx O cx fx post v (-(post.length : Int))
       pure (.coll .list (a ++ b ++ c))
